@@ -159,6 +159,10 @@ func caseD(seed uint64, idx int, f *chainFx) Case {
 			h.L[11] = &Node{Rnd: []int{256, 257, 100000}[r.Intn(3)], Seed: 3} // extra data
 			o.Ops = append(o.Ops, "extra")
 		}
+		if r.Chance(1, 2) { // without transactions the header gets past the per-transaction checks
+			t.L[1] = nL()
+			o.Ops = append(o.Ops, "notxs")
+		}
 		o.Payload = &Payload{Tree: t}
 	case "block-confirms-absurd":
 		t, i := pickBlock()
@@ -223,7 +227,7 @@ func caseD(seed uint64, idx int, f *chainFx) Case {
 		boxes := []string{`{"subTxList":[]}`, `{"subTxList":[null]}`, `{"subTxList":null}`, `{}`, `[]`, `null`, `{"subTxList":[{}]}`,
 			`{"subTxList":[{"type":"10","version":"1","chainID":"200","from":"Lemo83GN72GYH2NZ8BA729Z9TCT7KQ5FC3CR6DJG","gasPrice":"1","gasLimit":"1","amount":"1","expirationTime":"1","sigs":[],"gasPayerSigs":[]}]}`,
 			`{"subTxList":[[[[[[[[[[]]]]]]]]]]}`, `{"subTxList":"x"}`}
-		b := r.Intn(len(boxes) + 1)
+		b := (idx / len(dKinds)) % (len(boxes) + 1) // systematic
 		if b == len(boxes) {
 			t.L[11] = &Node{Rnd: r.Range(1, 400), Seed: r.Uint64()}
 		} else {
@@ -248,18 +252,19 @@ func caseD(seed uint64, idx int, f *chainFx) Case {
 	case "tx-json-data-garbage-resigned": // typed txs carry JSON in data: feed each type absurd JSON
 		t, i := pickTx()
 		o.What, o.Base = "tx", i
-		ty := []uint64{3, 4, 5, 6, 7, 8, 9}[r.Intn(7)]
+		combo := idx / len(dKinds) // systematic: every (type, document) pair in turn
+		ty := []uint64{3, 4, 5, 6, 7, 8, 9}[combo%7]
 		t.L[0] = nU(ty)
 		if ty == 3 || ty == 4 || ty == 7 {
 			t.L[5] = &Node{}
 		} else if len(t.L[5].B) == 0 {
 			t.L[5] = &Node{Rnd: 20, Seed: r.Uint64()}
 		}
-		docs := []string{`{}`, `null`, `[]`, `""`, `0`, `{"assetCode":null}`, `{"assetCode":"0x00","supplyAmount":"-1"}`, `{"supplyAmount":"99999999999999999999999999999999999999999999999999999999999999999999999999999999"}`,
+		docs := []string{`null`, `{}`, `[]`, `""`, `0`, `{"assetCode":null}`, `{"assetCode":"0x00","supplyAmount":"-1"}`, `{"supplyAmount":"99999999999999999999999999999999999999999999999999999999999999999999999999999999"}`,
 			`{"signers":null}`, `{"signers":[]}`, `{"signers":[null]}`, `{"signers":[{"address":"Lemo83GN72GYH2NZ8BA729Z9TCT7KQ5FC3CR6DJG","weight":"255"},{"address":"Lemo83GN72GYH2NZ8BA729Z9TCT7KQ5FC3CR6DJG","weight":"255"}]}`,
 			`{"category":"9","decimal":"4294967295","totalSupply":"1","isReplenishable":true,"isDivisible":true,"issuer":"","profile":null}`, `{"category":"1","profile":{"":""}}`,
 			`{"assetId":"0x","transferAmount":"-5","input":"0x"}`, `{"assetCode":"0x01","updateProfile":null}`, `{"isCandidate":"false"}`, `{"nodeID":"", "host":"", "port":"99999999999"}`, `{"a":{"a":{"a":{"a":{"a":{"a":{}}}}}}}`}
-		d := r.Intn(len(docs))
+		d := (combo / 7) % len(docs)
 		t.L[11] = nB([]byte(docs[d]))
 		o.Ops = []string{fmt.Sprintf("type%d-doc%d", ty, d)}
 		o.Payload = &Payload{Tree: t}
